@@ -64,6 +64,10 @@ class EncModel:
         for alg, kind in (("PBES2-HS256+A128KW", "oct20"), ("A256GCMKW", "oct32"), ("ECDH-ES+A128KW", "X25519"), ("A128KW", "oct16")):
             for form in ("flattened", "general"):
                 menu.append(("no-header-argument:" + alg, kind, "A256GCM", form, "counter"))
+        # one message object that the application keeps: for every further message it sets the plaintext, a fresh header and the recipient again
+        for alg, kind in (("ECDH-ES", "P-256"), ("ECDH-ES+A128KW", "X25519"), ("A256GCMKW", "oct32"), ("PBES2-HS256+A128KW", "oct20")):
+            for form in ("flattened", "general"):
+                menu.append(("kept-object:" + alg, kind, "A256GCM", form, "counter"))
         self.MENU = menu
 
     def make(self):
@@ -77,7 +81,7 @@ class EncModel:
                     jwk = scen.key(kk)
                     keys[kk] = (A.jkey(jwk if jwk["kty"] == "oct" else rjwk.public_of(jwk), "dict"), jwk)
         senders = {k: A.jkey(scen.key(k, 5), "dict") for k in ("P-384", "X448")}
-        return {"keys": keys, "senders": senders, "registry": jwe.JWERegistry(algorithms=scen.JWE_ALL), "earlier": [], "outputs": [], "epks": [], "n": 0}
+        return {"keys": keys, "senders": senders, "registry": jwe.JWERegistry(algorithms=scen.JWE_ALL), "earlier": [], "outputs": [], "epks": [], "n": 0, "kept": {}}
 
     def apply(self, st, op):
         from joserfc import jwe
@@ -103,6 +107,21 @@ class EncModel:
                     obj.add_recipient(key=key)
                     return jwe.encrypt_json(obj, None, registry=st["registry"])
                 r = call(bare)
+            elif alg.startswith("kept-object:"):
+                alg = alg.split(":", 1)[1]
+
+                def kept():
+                    cls = jwe.FlattenedJSONEncryption if form == "flattened" else jwe.GeneralJSONEncryption
+                    obj = st["kept"].get((alg, form))
+                    if obj is None:
+                        obj = st["kept"][(alg, form)] = cls({"alg": alg, "enc": enc}, b"plaintext")
+                    obj.plaintext = b"plaintext %d" % st["n"]
+                    obj.protected = {"alg": alg, "enc": enc}
+                    if form == "general":
+                        obj.recipients = []
+                    obj.add_recipient({"kid": "message-%d" % st["n"]}, key)
+                    return jwe.encrypt_json(obj, None, registry=st["registry"])
+                r = call(kept)
             elif alg.startswith("relay:"):
                 alg = alg[6:]
                 src = rjwe.encrypt({"alg": alg, "enc": enc}, b"plaintext", [{"jwk": jwk}], form=form, rand=rjwe.Drbg(repr(op).encode()), param_pos="protected")
@@ -204,7 +223,7 @@ class EncModel:
 
     def canon(self, st):
         from ..history import canon_state
-        return canon_state({k: v[0] for k, v in st["keys"].items()}, st["senders"], st["registry"])
+        return canon_state({k: v[0] for k, v in st["keys"].items()}, st["senders"], st["registry"], {repr(k): v for k, v in st["kept"].items()})
 
     def bucket(self, obs):
         return f"{obs['op'][0].split('+')[0]}:{obs['op'][4]}:{'bad' if obs['viol'] else 'ok'}:{obs.get('ndraws')}:traced={obs.get('traced', 0)}/{obs.get('traced', 0) + obs.get('untraced', 0)}"
